@@ -1001,14 +1001,22 @@ func c17rHandshake(c *ctx, seed int64, pl c17rHsPlan, prog *c17rProgress) *c17Li
 					}
 				}
 			}
-			agreed := viaTunnel && ph >= 1 && ph <= 2
-			if onTunnel != "" && (agreed || ph == 3) {
-				c.violate("tunnel-relay:inband-bytes-in-tunnel:"+phaseName[ph], "bytes that reached the relay IN-BAND after the tunnel had been agreed were written to a tunnel connection",
+			// once the relay has read the ACT nothing that arrives in-band may reach a tunnel connection: either the
+			// tunnel is agreed (in-band bytes are ignored by it) or it is not (the whole session is in-band); before
+			// the ACT only a session that goes on to agree on the tunnel may take parked in-band bytes into it
+			how := "after the tunnel had been agreed"
+			if !viaTunnel {
+				how = "in a session that did not agree on the tunnel"
+			}
+			if onTunnel != "" && (ph >= 1 || !viaTunnel) {
+				c.violate("tunnel-relay:inband-bytes-in-tunnel:"+phaseName[ph], "bytes that reached the relay IN-BAND "+how+" were written to a tunnel connection",
 					fmt.Sprintf("%q typed %s :: %s :: %s", b, phaseName[ph], onTunnel, sc.describe()))
 			}
 			inband := [][]byte{toSrv, toCli}[dir]
-			if (agreed || ph == 3) && !bytes.Contains(inband, b) {
-				c.violate("tunnel-relay:inband-bytes-not-passed-on:"+phaseName[ph], "bytes that reached the relay in-band after the tunnel had been agreed (or after the transfer) were not passed on in-band",
+			// (server output that arrives between ACT and CFG in a session without the tunnel is parked in front of the CFG
+			// line and read with it as junk: by design)
+			if ph >= 1 && !(ph == 1 && dir == 1 && !viaTunnel) && !bytes.Contains(inband, b) {
+				c.violate("tunnel-relay:inband-bytes-not-passed-on:"+phaseName[ph], "bytes that reached the relay in-band after it had read the ACT were not passed on in-band",
 					fmt.Sprintf("%q typed %s; in-band stream %q :: %s", b, phaseName[ph], c17Short(inband), sc.describe()))
 			}
 		}
